@@ -4,6 +4,7 @@
 package metrics
 
 import (
+	"strings"
 	"time"
 
 	"github.com/prometheus/client_golang/prometheus"
@@ -79,19 +80,28 @@ func NewPrometheusService() (*Service, error) {
 	return s, nil
 }
 
+// nodeIDLabel makes a Node ID usable as label value. The Node ID is chosen by the peer
+// (an FQDN may carry any octets) and WithLabelValues panics on invalid UTF-8.
+func nodeIDLabel(nodeID string) string {
+	return strings.ToValidUTF8(nodeID, "\uFFFD")
+}
+
 func (s *Service) SaveMessages(msg *Message) {
-	s.msgCount.WithLabelValues(msg.NodeID, msg.MsgType, msg.Direction, msg.Result).Inc()
-	s.msgDuration.WithLabelValues(msg.NodeID, msg.MsgType, msg.Direction).Observe(msg.Duration)
+	nodeID := nodeIDLabel(msg.NodeID)
+	s.msgCount.WithLabelValues(nodeID, msg.MsgType, msg.Direction, msg.Result).Inc()
+	s.msgDuration.WithLabelValues(nodeID, msg.MsgType, msg.Direction).Observe(msg.Duration)
 }
 
 func (s *Service) SaveSessions(sess *Session) {
+	nodeID := nodeIDLabel(sess.NodeID)
+
 	if sess.Duration == 0 {
-		s.sessions.WithLabelValues(sess.NodeID).Inc()
+		s.sessions.WithLabelValues(nodeID).Inc()
 		return
 	}
 
-	s.sessions.WithLabelValues(sess.NodeID).Dec()
-	s.sessionDuration.WithLabelValues(sess.NodeID).Observe(sess.Duration)
+	s.sessions.WithLabelValues(nodeID).Dec()
+	s.sessionDuration.WithLabelValues(nodeID).Observe(sess.Duration)
 }
 
 func (s *Service) Stop() error {
